@@ -18,6 +18,36 @@ VERIF = os.path.dirname(os.path.dirname(os.path.abspath(__file__)))
 from vlib.jsonable import case_hash, from_jsonable, short, to_jsonable  # noqa
 
 
+def set_case_environment(case):
+    """Process-wide settings that no generator varies otherwise, derived from
+    the case itself (so that shrinking and replay see the same environment):
+    a third of the cases run with the package's loggers at DEBUG level (code
+    guarded by `logger.isEnabledFor(DEBUG)` runs), the others at the library
+    default; two fifths run under non-default NumPy print options."""
+    import logging
+    try:
+        from vlib.jsonable import case_hash
+        debug = case_hash(case) % 3 == 0
+    except Exception:           # noqa
+        debug = False
+    logging.getLogger("neuroglancer_scripts").setLevel(
+        logging.DEBUG if debug else logging.WARNING)
+    # NumPy's process-wide print options (user scripts commonly set them;
+    # str() of NumPy scalars follows the legacy mode)
+    try:
+        import numpy as np
+        mode = case_hash(case) % 5
+        if mode == 1:
+            np.set_printoptions(legacy="1.13")
+        elif mode == 2:
+            np.set_printoptions(legacy=False, precision=3, suppress=True)
+        else:
+            np.set_printoptions(legacy=False, precision=8, suppress=False)
+    except Exception:           # noqa
+        pass
+    return debug
+
+
 class Violation(AssertionError):
     """The property is violated by the current case."""
 
@@ -240,6 +270,8 @@ class Ctx:
                     time.time() - state["t0"] > ctx.shrink_cap):
                 raise _Abort("shrinkcap")
             try:
+                if set_case_environment(case):
+                    ctx.counters["cases_with_debug_logging"] += 1
                 try:
                     with case_timer():
                         check(ctx, case)
@@ -483,6 +515,7 @@ def _replay(mod, path, scratch_root, known_open, quiet=False, witness_of=None):
     try:
         with open(os.devnull, "w") as devnull, \
                 contextlib.redirect_stdout(devnull):
+            set_case_environment(case)
             sub.check(ctx, case)
     except Violation as exc:
         if not quiet:
